@@ -13,6 +13,7 @@ from engine.th import TH
 from spec.seq import N, Seq
 
 PROPERTY = "C17"
+HISTORY_LEMMAS = ['queue_history', 'clear_empties', 'idle_keeps']  # lemmas/History.lean: one-cycle contracts => history-level statement (Lean 4)
 LEVEL = "proof"
 ASSUMPTIONS = ["payload layouts swept as listed; unbounded in inputs and history length"]
 LAYOUTS = {"d1": [("data", 1)], "d3": [("data", 3)], "a1b2": [("a", 1), ("b", 2)]}
